@@ -314,6 +314,8 @@ def steer(pkg, rng, with_dates):
     first.steps.append(("steeralsrec", M.Named("SteerRecAls"), True))
     first.steps.append(("steeralsopt", M.Named("SteerOptAls"), True))
     if with_dates:
+        first.steps.append(("steertimes", M.Prim("time"), True))
+        first.steps.append(("steerdatetimes", M.Prim("datetime"), True))
         first.steps.append(("steerdate", M.Union((("string", M.Prim("string")), ("date", M.Prim("date"))), nullable=False), True))
         first.steps.append(("steertime", M.Union((("time", M.Prim("time")), ("int64", M.Prim("int64")), ("datetime", M.Prim("datetime"))), nullable=True, explicit=False), True))
 
@@ -354,6 +356,13 @@ def model_task(task, ybin, root, prop):
             at = 1 if protos0[0].steps and protos0[0].steps[0][0] == sw.PAD_STEP else 0
             protos0[0].steps.insert(at, ("steeri64", M.Prim("int64"), True))
             protos0[0].steps.insert(at, ("steeru64", M.Prim("uint64"), True))
+            # one generic record, several instantiations with different layouts, as array elements, vector elements and plain values
+            pkg.files[fn0].append(M.Record("SteerPair", ("T", "U"), [("first", M.TParam("T")), ("second", M.TParam("U"))]))
+            inst = lambda a, b: M.Named("SteerPair", (M.Prim(a), M.Prim(b)))
+            protos0[0].steps.append(("steerpaira", M.Arr(inst("int8", "float64"), None), False))
+            protos0[0].steps.append(("steerpairb", M.Arr(inst("float32", "float32"), ((None, 2),)), True))
+            protos0[0].steps.append(("steerpairc", M.Vec(inst("float64", "uint8")), False))
+            protos0[0].steps.append(("steerpaird", M.Arr(inst(pr_.choice(["uint8", "float64"]), pr_.choice(["float32", "int8"])), 2), True))
             protos0[0].steps.append(("steerpodt", M.Named("SteerPodTail"), True))
             protos0[0].steps.append(("steerpodi", M.Vec(M.Named("SteerPodInner")), False))
             protos0[0].steps.append(("steerpodp", M.Vec(M.Named("SteerPodPacked"), 2), False))
@@ -386,6 +395,17 @@ def model_task(task, ybin, root, prop):
                 items = (0, 0) if r.chance(0.1) else (0, 6)
                 vals = sw.gen_values(cx.env, cx.ns, proto, r, finite=finite, big=r.chance(0.3), items=items, pad_len=pad_len)
                 for k_, (sn_, st_, ss_) in enumerate(proto.steps):
+                    if sn_ in ("steertimes", "steerdatetimes") and r.fork("manytimes", sn_).chance(0.5):
+                        # a few hundred times of day / instants with every number of fraction digits
+                        tr = r.fork("times", sn_)
+                        out_ = []
+                        for _ in range(tr.randint(100, 300)):
+                            digits = tr.randint(0, 9)
+                            frac = (tr.next() % (10 ** digits)) * 10 ** (9 - digits) if digits else 0
+                            secs = tr.next() % 86400
+                            ns_ = secs * 10 ** 9 + frac
+                            out_.append(ns_ if sn_ == "steertimes" else (tr.next() % (4 * 10 ** 9)) * 10 ** 9 + ns_ - 10 ** 18)
+                        vals[k_] = out_
                     if sn_ in ("steeru64", "steeri64") and pad_len is not None:
                         vg_ = V.ValueGen(cx.env, r.fork("ints", sn_), finite_only=finite, json_safe=finite)
                         vals[k_] = [vg_.gen_int(st_.name) for _ in range(r.randint(20, 60))]
